@@ -833,3 +833,35 @@ class ExcSameFunctional:
 
 register(Obligation(name="C16.get_Exc.functional_and_parameters_of_scf", prop=PROP, engine="Z", functions=["eminus.energies:get_Exc"], run=ExcSameFunctional(),
                     assumes=("engineZ",), doc="get_Exc evaluates the energy density with scf.xc AND scf.xc_params and the densities / gradients / tau it is given (used per orbital by get_Esic)"))
+
+
+# ---------------------------------------------------------------------------------------------------------
+# Fermi orbitals: normalised combinations of the occupied orbitals (its own obligation: the replay of get_FLO is an open finding)
+# ---------------------------------------------------------------------------------------------------------
+
+
+def nat_FO(rng):
+    """FO_i = sum_j R[i, j] psi_j with R = get_R (rows normalised): every Fermi orbital is normalised, lies in the span of the occupied
+    orbitals and is the combination the transformation matrix says (complex orthonormal orbitals, CH4, FODs near the hydrogens)."""
+    from eminus.localizer import get_FO, get_R
+
+    at, scf = _native_mol()
+    psi = _complexify(at, scf, rng)
+    fods = [np.asarray(at.pos[1:5]) * 0.9 + 0.05]
+    fo = np.asarray(get_FO(at, psi, fods)[0][0])
+    psirs = np.asarray(at.I(psi)[0][0])
+    Rm = np.asarray(get_R(at, psi[0][0], fods[0]))
+    want = psirs @ Rm.T  # column i: sum_j R[i, j] psi_j
+    e = float(np.abs(fo - want).max() / np.abs(want).max())
+    e = max(e, float(np.abs(at.dV * np.sum(np.abs(fo) ** 2, axis=0) - 1).max()))
+    # in the span of the occupied orbitals: the projection reproduces the orbital
+    P = at.dV * psirs @ (psirs.conj().T @ fo)
+    return max(e, float(np.abs(P - fo).max() / np.abs(fo).max()))
+
+
+from contracts.c04_c05_c01_c11 import BoundedNative  # noqa: E402
+
+register(Obligation(name="C16.get_FO.normalised_combinations_of_occupied", prop=PROP, engine="B", bounded=True, functions=["eminus.localizer:get_FO", "eminus.localizer:get_R"],
+                    run=BoundedNative(nat_FO, 1, tol=1e-8, what="FO_i = sum_j R[i, j] psi_j, normalised, in the occupied span (CH4, complex orthonormal orbitals)"),
+                    budget={"quick": 300, "thorough": 600},
+                    doc="BOUNDED: Fermi orbitals are the normalised combinations sum_j R[i, j] psi_j of the occupied orbitals"))
